@@ -286,8 +286,9 @@ func c11Run(e *core.Env) {
 			}
 			mid := big.NewInt(2*m + 1) // (m + 1/2) * 2
 			sq := new(big.Int).Mul(mid, mid) // (2m+1)^2 = 4 (m+1/2)^2
-			for j := 0; j <= 3; j++ {
-				// floor((m+1/2)^2 * 10^(2j)) = floor((2m+1)^2 * 10^(2j) / 4)
+			for _, j := range []int{0, 1, 2, 3, 5, 8, 12, 20} {
+				// floor((m+1/2)^2 * 10^(2j)) = floor((2m+1)^2 * 10^(2j) / 4): for large j the operand is the exact
+				// square of the midpoint followed by zeros, +-1 in its last digit (operands far longer than 2p+2 digits)
 				v := new(big.Int).Mul(sq, ref.Pow10(2*j))
 				v.Quo(v, big.NewInt(4))
 				for _, dlt := range []int64{-1, 0, 1} {
@@ -374,7 +375,7 @@ func init() {
 		Rule:  "Sqrt on every coefficient below 10^(2p+2) for small p (both exponent parities), on the sparse SHAPE families for p = 1..16 under all context modes, and on the pre-images of every p-digit midpoint, against big.Int.Sqrt + sticky rounded half-even once (value and Inexact iff not exactly representable); Cbrt on every perfect cube m^3 (both signs, scaled) and DENSE operands against an exact (r+-ulp)^3 bracket; non-trivial = inexact root / non-trivial cube case",
 		Bounds: func(tier string) string {
 			if tier == "thorough" {
-				return "Sqrt: all coefficients < 10^(2p+2) for p <= 3 x 2 parities; SHAPE(14) x 6 exponents x p = 1..16 x 8 modes (+ tight range for p <= 5); midpoint pre-images for p <= 4 (j = 0..3, +-1, 3 exponents); Cbrt: m^3 for m < 10^4 x 3 scalings x signs x 6 precisions, DENSE(4) x 5 exponents x 4 precisions, SHAPE"
+				return "Sqrt: all coefficients < 10^(2p+2) for p <= 3 x 2 parities; SHAPE(14) x 6 exponents x p = 1..16 x 8 modes (+ tight range for p <= 5); midpoint pre-images for p <= 4 (j in {0,1,2,3,5,8,12,20}, +-1 in the last digit, 3 exponents); Cbrt: m^3 for m < 10^4 x 3 scalings x signs x 6 precisions, DENSE(4) x 5 exponents x 4 precisions, SHAPE"
 			}
 			return "Sqrt: all coefficients < 10^(2p+2) for p <= 2 x 2 parities; SHAPE(10) x 6 exponents x p in {1..9,16} x 8 modes (+ tight range for p <= 5); midpoint pre-images for p <= 3; Cbrt: m^3 for m < 2000 x 3 scalings x signs x 6 precisions, DENSE(3) x 5 exponents x 4 precisions, SHAPE"
 		},
